@@ -159,6 +159,27 @@ class World:
                         if lo is not None and hi is not None and hi - lo > 4 and abs(lo) < 1e15 and abs(hi) < 1e15:
                             props['min'], props['max'] = lo + 1, hi - 1
                             di['members'] = dict(m, min=lo + 1, max=hi - 1)
+                    # a start value that is valid only for the datatype AS CONFIGURED in the same Param(): longer than the
+                    # class allows, with the length limit raised beside it
+                    if t == 'string' and 'maxchars' in spec and spec['maxchars'] < 200 and rng.random() < 0.3 and not p['constant']:
+                        props.pop('default', None)
+                        truth['defaults'].pop(p['name'], None)
+                        props['maxchars'] = di['maxchars'] = spec['maxchars'] + 7
+                        v = 'y' * (spec['maxchars'] + 3)
+                        props['value'] = v
+                        truth['values'][p['name']] = v
+                        if p['has_write']:
+                            truth['writes'][p['name']] = v
+                    if t == 'array' and rng.random() < 0.3 and 'min' not in props and not p['constant']:
+                        props.pop('default', None)
+                        truth['defaults'].pop(p['name'], None)
+                        props['maxlen'] = di['maxlen'] = spec['maxlen'] + 2
+                        elem = gen_dt.complete(spec['members'], gen_dt.gen_valid(spec['members'], rng, True), rng)
+                        v = [elem] * (spec['maxlen'] + 1)
+                        props['value'] = v
+                        truth['values'][p['name']] = v
+                        if p['has_write']:
+                            truth['writes'][p['name']] = v
                     if di != spec:
                         truth['datainfo'][p['name']] = di
                     if rng.random() < 0.2:
@@ -185,7 +206,8 @@ class World:
 
     ERRORS = ['unknown-module-property', 'unknown-parameter-property', 'wrong-typed-value', 'wrong-typed-default',
               'wrong-typed-parameter-property', 'wrong-typed-module-property', 'missing-description', 'inverted-limits',
-              'missing-required-value', 'unknown-datatype-property', 'config-for-unimplemented-optional']
+              'missing-required-value', 'unknown-datatype-property', 'config-for-unimplemented-optional',
+              'value-violates-configured-datatype']
 
     def inject(self, ms, cfg, kind, pname=None):
         """mutate the config of one module; returns False if not applicable"""
@@ -206,6 +228,23 @@ class World:
         name = p['name']
         style, props, spec = items.get(name, ('param', {}, p['spec']))
         props = dict(props)
+        if kind == 'value-violates-configured-datatype':
+            # the value is fine for the class datatype but not for the limits configured in the same Param()
+            cand = [q for q in params if q['constant'] is None and (
+                (q['spec']['type'] == 'string' and q['spec'].get('minchars', 0) <= 1 and q['spec'].get('maxchars', 10 ** 9) >= 3) or
+                (q['spec']['type'] == 'array' and q['spec']['maxlen'] > max(q['spec'].get('minlen', 0), 1)))]
+            if not cand:
+                return False
+            p = rng.choice(cand)
+            name = p['name']
+            sp = p['spec']
+            if sp['type'] == 'string':
+                props = {'maxchars': 1, 'value': 'abc'}
+            else:
+                elem = gen_dt.complete(sp['members'], gen_dt.gen_valid(sp['members'], rng, True), rng)
+                props = {'maxlen': max(sp.get('minlen', 0), 1), 'value': [elem] * sp['maxlen']}
+            items[name] = ('param', props, sp)
+            return True
         if kind == 'unknown-parameter-property':
             props[rng.choice(['nosuchprop', 'valu', 'Unit'])] = 1
         elif kind == 'unknown-datatype-property':
@@ -378,7 +417,7 @@ class World:
                 for which in ('values', 'defaults'):
                     if n in truth[which]:
                         r.count('start_values_checked')
-                        want = canon(p['spec'], truth[which][n])
+                        want = canon(spec, truth[which][n])
                         try:
                             got = json.loads(json.dumps(pobj.export_value()))
                         except Exception as e:
@@ -556,8 +595,9 @@ class World:
                         r.violation(f'C10/configured-write-count/{len(idx)}' + ('/with-failing-write' if 'failing_write' in case else ''), f'{ms["name"]}.{n}: write method called {len(idx)}x (failing write: {case.get("failing_write")})', case)
                         return
                     from vlib import dtbuild
-                    got = json.loads(json.dumps(dtbuild.build(p['spec']).export_value(mine[idx[0]][3])))
-                    if got != canon(p['spec'], v):
+                    cspec = truth['datainfo'].get(n, p['spec'])        # the datatype as configured
+                    got = json.loads(json.dumps(dtbuild.build(cspec).export_value(mine[idx[0]][3])))
+                    if got != canon(cspec, v):
                         r.violation('C10/configured-write-value', f'{ms["name"]}.{n}: written {got!r}, configured {v!r}', case)
                         return
                     if idx[0] > first_poll:
